@@ -1027,6 +1027,94 @@ def gen_exc_types(kinds):
             yield mk((1,), ((0, 1),), 1, acts={cb: {1: [("raise", kind)]}})
 
 
+def gen_late_idle(tier):
+    """Idle callbacks registered / removed / re-registered from inside alarm and watch callbacks AFTER the
+    loop has already been through at least one idle pass with NO idle callback registered (none registered
+    before run(), or the ones registered before run() removed by the first callback), followed by further
+    alarm / watch callbacks: the statement's "after any alarm or watch callback has run, the registered
+    idle callbacks run before the loop next goes quiescent" for idle callbacks that did not exist when the
+    loop started, and "a removed idle callback is not called again".  (A loop that emulates idle with a
+    timer / a one-shot handle keeps a flag for "an idle pass is scheduled"; a pass over an empty set is
+    where such a flag goes stale.)  No scripted arrivals: the watch callback is made to run at a chosen
+    time by an alarm callback writing to its descriptor, so the same scripts drive every loop.
+
+    Timeline (alarms one time unit apart): [the callbacks registered before run() are removed by the
+    first alarm callback, or by the callback of descriptor 0 which is readable from the start] ->
+    `empties` passive alarm callbacks (each followed by an idle pass over nothing) -> registration `reg`
+    from an alarm callback or from the callback of descriptor 1 -> a passive alarm -> tail: nothing |
+    "swap" (remove idle 0, register idle 1; passive alarm) | "drop-readd" (remove every idle callback;
+    passive alarm = empty pass again; register idle 0 anew; passive alarm).
+    Bounds: 0..1 (thorough: 0..2) idle callbacks before run(); 0..2 (thorough: 0..3) empty passes (0: the
+    registration is made by the first callback of the run -- a loop that arms its idle emulation when it
+    is constructed has been through an empty pass even then); 4 registration patterns over 2 idle slots;
+    registration and tail each performed from an alarm or a watch callback (all four combinations)."""
+    quick = tier == "quick"
+    regs = [
+        (("idle", 0),),
+        (("idle", 0), ("idle", 1)),
+        (("idle", 0), ("rm_idle", 0), ("idle", 0)),  # registered, removed, registered anew in one callback
+        (("idle", 0), ("idle", 1), ("rm_idle", 0)),  # the removed one must not run, the other must
+    ]
+    for pre_idle in (0, 1) if quick else (0, 1, 2):
+        for first in ("A", "P"):
+            for empties in (0, 1, 2) if quick else (0, 1, 2, 3):
+                if empties == 0 and (pre_idle or first == "P"):
+                    continue  # 0: the registration is made by the very first callback of the run
+                for reg_from in ("A", "P"):
+                    for reg in regs:
+                        for tail in ("none", "swap", "drop-readd"):
+                            for tail_from in (reg_from,) if tail == "none" else ("A", "P"):
+                                delays, acts, np1 = [], {}, [0]
+
+                                def at(t, ops):
+                                    if ops:
+                                        acts[f"A{len(delays)}"] = {1: ops}  # noqa: B023
+                                    delays.append(t)  # noqa: B023
+
+                                def via(kind, t, ops):
+                                    if kind == "A":
+                                        at(t, ops)
+                                    else:  # the alarm makes descriptor 1 readable; its callback acts
+                                        at(t, (("write", 1),))
+                                        np1[0] += 1  # noqa: B023
+                                        acts.setdefault("P1", {})[np1[0]] = ops  # noqa: B023
+
+                                rm_pre = tuple(("rm_idle", k) for k in range(pre_idle))
+                                pipes = [(1, 0)]
+                                t = 1
+                                if empties == 0:
+                                    t = 0
+                                elif first == "A":
+                                    at(t, rm_pre)
+                                else:
+                                    pipes.insert(0, (0, 1))
+                                    if rm_pre:
+                                        acts["P0"] = {1: rm_pre}
+                                    at(t, ())
+                                for _ in range(empties - 1):
+                                    t += 1
+                                    at(t, ())
+                                t += 1
+                                via(reg_from, t, reg)
+                                t += 1
+                                at(t, ())
+                                if tail == "swap":
+                                    t += 1
+                                    via(tail_from, t, (("rm_idle", 0), ("idle", 1)))
+                                    t += 1
+                                    at(t, ())
+                                elif tail == "drop-readd":
+                                    t += 1
+                                    via(tail_from, t, (("rm_idle", 0), ("rm_idle", 1)))
+                                    t += 1
+                                    at(t, ())
+                                    t += 1
+                                    via(tail_from, t, (("idle", 0),))
+                                    t += 1
+                                    at(t, ())
+                                yield mk(tuple(delays), tuple(pipes), pre_idle, acts=acts)
+
+
 def gen_real(tier):
     """Scripts for the real-time runs: no scripted arrivals (data is written before run() or by callbacks)."""
     delays, pipes, nidle = (1, 1, 2), ((0, 2), (1, 1)), 2
@@ -1168,7 +1256,7 @@ class _Board:
 
 
 def _virtual_families(tier, seed):
-    fams = [("passive", gen_passive(tier)), ("pre-removal", gen_pre_removal(tier)), ("one-actor", gen_k1(tier)), ("two-actors", gen_k2(tier)), ("exception-types", gen_exc_types(EXC_KINDS)), ("random", gen_random(tier, seed, 3000 if tier == "quick" else 600000))]
+    fams = [("passive", gen_passive(tier)), ("pre-removal", gen_pre_removal(tier)), ("late-idle", gen_late_idle(tier)), ("one-actor", gen_k1(tier)), ("two-actors", gen_k2(tier)), ("exception-types", gen_exc_types(EXC_KINDS)), ("random", gen_random(tier, seed, 3000 if tier == "quick" else 600000))]
     return fams
 
 
@@ -1218,13 +1306,13 @@ def _run_virtual_board(kind, label, tier, seed, fams, procs):
     return board, dict(counts)
 
 
-def _run_real_board(kind, tier, scens, par, vtime=True):
+def _run_real_board(kind, tier, scens, par, vtime=True, late_keys=frozenset()):
     label = f"{kind}-vtime" if vtime else f"{kind}-realtime"
     if vtime:
         rule = f"real {kind} loop (its real scheduler, real os.pipe descriptors) on a virtual clock: the library's clock is a counter and its blocking primitive polls without blocking, a wait with nothing readable lasting exactly its timeout; load-independent"
     else:
         rule = f"real {kind} loop in real time (unit {UNIT}s, os.pipe), blocking primitive observed; failures are re-run twice and carry seen_in_runs k/3; INFORMATIONAL (depends on the wall clock)"
-    board = _Board(label, rule, f"{len(scens)} scripts on 3 alarms (delays 1,1,2), 2 pipes, 2 idle callbacks: one acting callback + hand-picked two-actor / lateness scripts", False)
+    board = _Board(label, rule, f"{len(scens)} scripts: 3 alarms (delays 1,1,2), 2 pipes, 2 idle callbacks with one acting callback + hand-picked two-actor / lateness scripts; late-idle family (gen_late_idle: 0..2 idle callbacks before run(), 1..3 idle passes over nothing, then idle callbacks registered / removed / re-registered from alarm and watch callbacks, <= 9 alarms, 2 pipes)", False)
     if kind == "trio":  # both batch orders of trio's scheduler (see _build_real)
         scens = [dict(s, order=o) if o == "desc" else s for s in scens for o in ("asc", "desc")]
     traces = run_real_many([(kind, s) for s in scens], par, vtime=vtime)
@@ -1256,7 +1344,8 @@ def _run_real_board(kind, tier, scens, par, vtime=True):
     notes = defaultdict(int)
     for i, (s, r) in enumerate(zip(scens, res)):
         b = board2 if any(o[0] == "sleep" for o in s.get("pre", ())) else board
-        b.add(s, r, {"seen_in_runs": f"{repro[i]}/3"} if i in repro else None, family="real")
+        fam = "late-idle" if _key({k: v for k, v in s.items() if k != "order"}) in late_keys else "real"
+        b.add(s, r, {"seen_in_runs": f"{repro[i]}/3"} if i in repro else None, family=fam)
         for n in r["notes"]:
             notes[n.split("#")[0][:60]] += 1
     return [board, board2], flaky, dict(notes)
@@ -1286,6 +1375,8 @@ def run(tier="quick", seed=0):
     # forked boards first: they fork one child per script, which is cheap while this process is small
     real_checks = []
     scens = gen_real(tier)
+    late = list(gen_late_idle(tier))
+    late_keys = frozenset(_key(s) for s in late)
     par = 10 if quick else 12
     for kind in REAL_KINDS:
         if avail.get(kind) is not None:
@@ -1294,17 +1385,19 @@ def run(tier="quick", seed=0):
         # quick tier: virtual time only (no wall-clock dependence at all); thorough: also real time (INFORMATIONAL)
         for vtime in (True,) if quick else (True, False):
             t1 = _time.time()
-            boards, flaky, notes = _run_real_board(kind, tier, scens, par, vtime)
+            # the late-idle family runs on the virtual clock only (the real-time boards are informational
+            # and each script would cost ~0.3 s of real sleeping there)
+            boards, flaky, notes = _run_real_board(kind, tier, scens + late if vtime else scens, par, vtime, late_keys)
             for b in boards:
                 real_checks += b.results()
-            info[boards[0].label] = {"scripts": len(scens) * (2 if kind == "trio" else 1), "seen_once_only_on_rerun": flaky, "failure_kinds": {f"{b.label}/{c}: {m}": n for b in boards for (c, m), n in b.fail_kinds.items()}, "notes": notes, "wall_s": round(_time.time() - t1, 1)}
+            info[boards[0].label] = {"scripts": (len(scens) + (len(late) if vtime else 0)) * (2 if kind == "trio" else 1), "seen_once_only_on_rerun": flaky, "failure_kinds": {f"{b.label}/{c}: {m}": n for b in boards for (c, m), n in b.fail_kinds.items()}, "notes": notes, "wall_s": round(_time.time() - t1, 1)}
     t0 = _time.time()
     board, counts = _run_virtual_board("select", "select-virtual", tier, seed, _virtual_families(tier, seed), procs)
     checks += board.results()
     info["select-virtual"] = {"scripts": counts, "failure_kinds": {f"{c}: {m}": n for (c, m), n in board.fail_kinds.items()}, "wall_s": round(_time.time() - t0, 1)}
     if avail.get("zmq") is None:
         t1 = _time.time()
-        zf = [("passive", (s for s in gen_passive(tier) if not s.get("drift"))), ("pre-removal", gen_pre_removal(tier)), ("one-actor", gen_k1("quick")), ("exception-types", gen_exc_types([*EXC_KINDS, "zmqeintr"]))]
+        zf = [("passive", (s for s in gen_passive(tier) if not s.get("drift"))), ("pre-removal", gen_pre_removal(tier)), ("late-idle", gen_late_idle(tier)), ("one-actor", gen_k1("quick")), ("exception-types", gen_exc_types([*EXC_KINDS, "zmqeintr"]))]
         if not quick:
             zf.append(("two-actors", gen_k2("quick")))
             zf.append(("random", (s for s in gen_random(tier, seed, 20000) if not s.get("drift"))))
